@@ -56,6 +56,73 @@ def check_sym_case(rec):
     return stats, bad
 
 
+def check_struct_case(rec):
+    """A structural model (MC_Struct: unused intermediates, components, parameters): rhs_matrix row i must be the
+    rate of the state states_matrix lists at row i, expanded down to states / parameters / time, with the
+    specification's value; jacobi_matrix must be the derivative of those rows (sympy's own diff as reference is
+    circular, so only its shape and free symbols are checked here)."""
+    from . import gx
+    import sympy
+    from gotranx import sympytools
+
+    bad = []
+    stats = {"compared": 0, "undefined": 0}
+    text = modelcase.render_text(rec["blocks"])
+    ctx = {"text": text, "shape": "structural", "depth": 1}
+    ode = gx.load(text)
+    ns = gx.exec_module(gx.numpy_code(ode))
+    try:
+        S = sympytools.states_matrix(ode)
+        R = sympytools.rhs_matrix(ode)
+        J = sympytools.jacobi_matrix(ode)
+    except Exception as ex:  # noqa: BLE001
+        return stats, [{"tag": "symbolic", "exception": type(ex).__name__, "message": str(ex)[:200], **ctx}]
+    names = [str(s) for s in S]
+    if [ns["state_index"](n) for n in names] != list(range(len(names))):
+        bad.append({"tag": "state-order", "matrix": names, "generated": dict(ns["state"]), **ctx})
+    if J.shape != (len(names), len(names)):
+        bad.append({"tag": "jacobian-shape", "got": list(J.shape), **ctx})
+    for c in rec["cases"]:
+        inp = c["input"]
+        sub = {}
+        for a in list(ode.states) + list(ode.parameters):
+            v = inp["states"].get(a.name) or inp["params"].get(a.name)
+            sub[a.symbol] = sympy.Rational(v["n"], v["d"])
+        sub[ode.t] = sympy.Rational(inp["t"]["n"], inp["t"]["d"])
+        for i, si in enumerate(names):
+            v = R[i].subs(sub)
+            if v.free_symbols:
+                bad.append({"tag": "rhs_matrix-free-symbols", "name": si, "left": sorted(map(str, v.free_symbols)), **ctx})
+                continue
+            try:
+                got = float(v)
+            except TypeError:
+                stats["undefined"] += 1
+                continue
+            modelcase._cmp(bad, stats, "rhs_matrix", si, got, c["expect"]["rhs"][si], {**ctx, "fn": "rhs_matrix"})
+    return stats, bad
+
+
+def _struct_worker(rec):
+    try:
+        return check_struct_case(rec)
+    except Exception as ex:  # noqa: BLE001
+        import traceback
+        return {"compared": 0, "undefined": 0}, [{"tag": "harness", "exception": type(ex).__name__, "message": traceback.format_exc()[-500:],
+                                                   "text": modelcase.render_text(rec["blocks"]), "shape": "structural", "depth": 1}]
+
+
+def replay_struct(recs, nproc=16):
+    total = {"models": len(recs), "compared": 0, "undefined": 0}
+    bad = []
+    with cf.ProcessPoolExecutor(max_workers=nproc) as ex:
+        for st, b in ex.map(_struct_worker, recs, chunksize=4):
+            total["compared"] += st["compared"]
+            total["undefined"] += st["undefined"]
+            bad.extend(b)
+    return total, bad
+
+
 def _worker(rec):
     try:
         return check_sym_case(rec)
